@@ -88,11 +88,17 @@ def cqd_check(rng, spec, ops, driver=None):
     n = len(d["index"])
     md = au.measure_dim(spec)
     iters, nt = 2, 3
-    tp = np.array([[[rng.randrange(-8, 9) / 4.0 for _ in range(md)] for _ in range(nt)] for _ in range(iters)])
-    pens = np.array([0.0, 0.5, 1.0])
+    # targets inside and far outside the bounds, dist_max smaller and larger than the spread of the measures (normalised distances
+    # above 1 are legal), several objective ranges and penalty vectors: the formula has no side conditions
+    wide = rng.choice([4.0, 4.0, 1.0, 0.25])
+    tp = np.array([[[rng.randrange(-8, 9) / wide for _ in range(md)] for _ in range(nt)] for _ in range(iters)])
+    pens = np.array(rng.choice([[0.0, 0.5, 1.0], [0.0, 0.5, 1.0], [0.25, 2.0], [1.0], [0.0, 0.125, 0.25, 0.5, 0.75, 1.0]]))
+    omin, omax = rng.choice([(-4.0, 4.0), (-4.0, 4.0), (0.0, 1.0), (-1.0, 1.0), (-6.0, 2.0), (0.0, 64.0)])
+    dmax = rng.choice([8.0, 8.0, 1.0, 0.25, 2.0, 32.0])
+    orng, dm = au.F(omax) - au.F(omin), au.F(dmax)
     snap = {k: np.array(v, copy=True) for k, v in d.items() if v.dtype != object}
     try:
-        res = archive.cqd_score(iterations=iters, target_points=tp, penalties=pens, obj_min=-4.0, obj_max=4.0, dist_max=8.0, dist_ord=1)
+        res = archive.cqd_score(iterations=iters, target_points=tp, penalties=pens, obj_min=omin, obj_max=omax, dist_max=dmax, dist_ord=1)
     except Exception as e:  # noqa
         if n == 0:
             return None   # max over an empty archive is undefined
@@ -106,7 +112,7 @@ def cqd_check(rng, spec, ops, driver=None):
         s = Fraction(0)
         for pen in pens:
             for t in tp[it]:
-                s += max(o / 8 - au.F(pen) * sum(abs(m - au.F(tc)) for m, tc in zip(mm, t)) / 8 for o, mm in zip(objs, meas))
+                s += max(o / orng - au.F(pen) * sum(abs(m - au.F(tc)) for m, tc in zip(mm, t)) / dm for o, mm in zip(objs, meas))
         scores.append(s)
     exp = sum(scores) / iters
     got = au.F(res.mean)
@@ -116,7 +122,7 @@ def cqd_check(rng, spec, ops, driver=None):
         # the extracted Coq model (Model/Cqd.v with the L1 distance), on the elites data() lists, shuffled: C06_cqd_only_current_elites
         order = list(range(n))
         rng.shuffle(order)
-        mo = driver.call("CQD", [[Fraction(-4), Fraction(4), Fraction(8)], [[objs[k], meas[k]] for k in order], [au.F(p) for p in pens],
+        mo = driver.call("CQD", [[au.F(omin), au.F(omax), dm], [[objs[k], meas[k]] for k in order], [au.F(p) for p in pens],
                                  [[[au.F(x) for x in t] for t in tp[it]] for it in range(iters)]])
         if not mo[0] or au.uq(mo[0][0]) != exp:
             return "the Coq model of cqd_score gives %s, the formula in Python %r" % (mo[0], float(exp))
